@@ -49,7 +49,9 @@ def body_for(r, kind):
         "SearchResultEntry": ("cn=e", ((("cn"), (b"v",)),)),
         "SearchResultReference": (("ldap://y/",),),
         "SearchResultDone": (res,),
-        "ExtendedResponse": (res, r.choice([None, "1.2.3"]), r.choice([None, b"v"])),
+        # names near the notice of disconnection (prefixes, suffixes, other spellings of its arcs) are ordinary response names
+        "ExtendedResponse": (res, r.choice([None, "1.2.3", "1.3.6.1.4.1.1466.20037", NOTICE_OID + "0", NOTICE_OID[:-1], gv.g_lookalike_oid(r, NOTICE_OID), gv.g_lookalike_oid(r, NOTICE_OID)]),
+                             r.choice([None, b"v"])),
     }[kind]
 
 
